@@ -54,6 +54,21 @@ CHECKS = {
         note="Bounds as C02. The number of rounds of the refine-while-needed loop is not bounded by this check (only progress per "
              "requested round and identity when not requested).",
         design="5/C12"),
+    'C01': dict(
+        text="Bounded symbolic model checking of the real Die constructor (parser, boundary gathering, cell matrix, greedy ground "
+             "cover, final self-check) with the die extent and all region boundaries on one axis symbolic: on every path z3 proves "
+             "that a valid description is accepted, every reported rectangle is inside the die, a free point is strictly inside at "
+             "most one and (if in the die) in the closure of at least one, areas sum to the die, every input region is reported "
+             "unchanged with its tag in its own list; invalid descriptions (sticking out, overlapping) are rejected on every path.",
+        note="<=2 regions quick / 3 thorough from generated placements over symbolic breakpoints; fixed regions come through the "
+             "real Netlist loader; exact reals with margin 0.01; decimal-rounding clause decided separately by the FP kernel when present.",
+        design="5/C01"),
+    'C11': dict(
+        text="Bounded symbolic model checking of the real split_rectangles / Die.split_refinable_regions / initial_grid with symbolic "
+             "widths: count >= n, free-point tiling of the former refinable area, each piece inside its source with its tag, aspect "
+             "ratio <= r for every piece (cross-multiplied), blockages untouched.",
+        note="r from {1.42,1.5,1.9,2,3}, n<=4 (6 thorough), input ratios <= 8, one or two starting rectangles, die with one blockage.",
+        design="5/C11"),
 }
 
 PENDING_REASON = "check not built yet in this round (planned in DESIGN.md section 5); nothing is claimed"
